@@ -1,7 +1,58 @@
-(* C07 -- XML Schema. (model of xml_schema/parse.py in progress; this file records what is proved) *)
-From Fences Require Import Graph.
+(* C07 -- XML Schema: valid documents validate, invalid documents do not.
+   The executable model of xml_schema/parse.py (coq/Xml.v: tag handlers, _repeat, type table, restrictions, resolve,
+   optimize, and the document a path builds) is tied to the implementation by stream X (graph, entries, labels and
+   documents on random schemas, with the numbers Python drew at parse time as an input).  The conformance of the
+   documents to the schema is judged by xmlschema in the oracle; the statements below are what is proved about the
+   model so far. *)
+From Coq Require Import String ZArith.
+From Fences Require Import Xml.
+Local Open Scope list_scope.
 
-(* _repeat offers zero occurrences as a valid alternative exactly when minOccurs = 0 *)
-Theorem C07_zero_occurrences : forall mn : nat, (mn =? 0) = true <-> mn = 0.
-Proof. intros mn. apply Nat.eqb_eq. Qed.
-Print Assumptions C07_zero_occurrences.
+(* _repeat refuses exactly the contradictory occurrence bounds, with the library's exception *)
+Theorem C07_repeat_bounds : forall child mn mx st,
+  (mx < mn -> repeat_node child mn (Some mx) st = LibErr EXmlSchema) /\
+  (mn <= mx -> exists st' root, repeat_node child mn (Some mx) st = Ok (st', root)).
+Proof.
+  intros child mn mx st. unfold repeat_node.
+  destruct (xnoop false None st) as [st1 root]. destruct (xnoop_leaf (mn =? 0) None st1) as [st2 l]. split; intros H.
+  - destruct (Nat.ltb_spec mx mn); [reflexivity|lia].
+  - destruct (Nat.ltb_spec mx mn); [lia|]. eauto.
+Qed.
+Print Assumptions C07_repeat_bounds.
+
+(* an unbounded maxOccurs is unrolled to minOccurs + 1 occurrences and is never refused *)
+Theorem C07_repeat_unbounded : forall child mn st, exists st' root, repeat_node child mn None st = Ok (st', root).
+Proof.
+  intros child mn st. unfold repeat_node.
+  destruct (xnoop false None st) as [st1 root]. destruct (xnoop_leaf (mn =? 0) None st1) as [st2 l].
+  destruct (Nat.ltb_spec (mn + 1) mn); [lia|]. eauto.
+Qed.
+Print Assumptions C07_repeat_unbounded.
+
+(* the "no occurrence at all" alternative is labelled valid exactly when minOccurs = 0 *)
+Theorem C07_repeat_empty_label : forall child mn mx st st' root,
+  repeat_node child mn mx st = Ok (st', root) ->
+  kind_of (x_graph (fst (xnoop_leaf (mn =? 0) None (fst (xnoop false None st))))) (S (length (x_graph st))) = KLeaf (mn =? 0).
+Proof.
+  intros child mn mx st st' root _. unfold xnoop_leaf, xnoop, xnew. cbn [fst x_graph].
+  unfold kind_of, getn. rewrite app_nth2 by (rewrite app_length; cbn; lia).
+  rewrite app_length. cbn [length]. replace (S (length (x_graph st)) - (length (x_graph st) + 1)) with 0 by lia. reflexivity.
+Qed.
+Print Assumptions C07_repeat_empty_label.
+
+(* a document that is not an xs:schema is refused with the library's exception *)
+Theorem C07_not_a_schema : forall fuel e draws, is_tag (tag_of e) "schema" = false -> parse_xsd fuel e draws = LibErr EXmlSchema.
+Proof. intros fuel e draws H. unfold parse_xsd. rewrite H. reflexivity. Qed.
+Print Assumptions C07_not_a_schema.
+
+(* non-vacuity: a schema with one element of a built-in type is parsed, and the first generated document is
+   <root>foo</root> *)
+Definition c07_schema : xml :=
+  XEl (kw "schema") [] [XEl (kw "element") [(kw "name", kw "root"); (kw "type", kw "xs:string")] []].
+Example C07_nonvacuous : exists st root,
+  parse_xsd 50 c07_schema [] = Ok (st, root) /\
+  xsample 50 st root [0] = Ok (XD (kw "root") [] (Some (kw "foo")) []).
+Proof.
+  destruct (parse_xsd 50 c07_schema []) as [[st root]| | |] eqn:E; try (vm_compute in E; discriminate).
+  exists st, root. split; auto. vm_compute in E. inversion E; subst. vm_compute. reflexivity.
+Qed.
